@@ -472,12 +472,24 @@ def r_axis(idx, rep, rule="R-AXIS", floor=4):
                         if isinstance(k, int) and 0 <= k < 3 and isinstance(r, ast.Slice):
                             cols.add(k)
             return cols
+        def pose_cols_deep(f_):
+            """own accesses plus those of private helpers of the module that are handed the pose (`_axis_segment_aabb(cylinder2origin, ...)`)"""
+            cols = pose_cols(f_.node)
+            for c_ in ast.walk(f_.node):
+                if isinstance(c_, ast.Call):
+                    g_ = idx.resolve_call(f_.module, c_, None)
+                    gn_ = getattr(g_, "node", None)
+                    if isinstance(gn_, ast.FunctionDef) and getattr(g_, "cls", None) is None and g_.name.startswith("_") and not c_.keywords:
+                        for p_, a_ in zip(g_.params(), c_.args):
+                            if "2origin" in u(a_):
+                                cols |= pose_cols(gn_, posename=p_)
+            return cols
         f = idx.maybe_func("distance3d.containment::%s_aabb" % shape)
         if f is not None and shape != "disk":
-            found["distance3d.containment::%s_aabb" % shape] = pose_cols(f.node)
+            found["distance3d.containment::%s_aabb" % shape] = pose_cols_deep(f)
         f = idx.maybe_func("distance3d.containment_test::points_in_%s" % shape)
         if f is not None and shape != "disk":
-            found["distance3d.containment_test::points_in_%s" % shape] = pose_cols(f.node)
+            found["distance3d.containment_test::points_in_%s" % shape] = pose_cols_deep(f)
         ci = idx.modules[COLL].classes.get(cname)
         if ci is not None:
             for mname in ("first_vertex", "center", "update_pose"):
